@@ -351,6 +351,7 @@ func (tree *Rtree) Delete(obj geom.Geom) bool {
 
 	if !tree.root.leaf && len(tree.root.entries) == 1 {
 		tree.root = tree.root.entries[0].child
+		tree.height--
 	}
 
 	return true
